@@ -65,7 +65,7 @@ structure ECore (s : State) : Prop where
         s.eSubD = true ∧ (s.eDirty = true ∨ lastSeen s = some s.value)
   e3 : s.eDirty = true → s.eChan = true
   e5 : hasMemo s.eff = false → s.eChan = true → s.eDirty = true
-  e6 : hasMemo s.eff = false → s.stolen = false
+  e6 : s.stolen = false
   e7 : s.eSubM = true → hasMemo s.eff = true ∧ hasEffect s.eff = true
   e8 : s.eSubD = true → hasEffect s.eff = true
 
@@ -81,6 +81,10 @@ structure DCore (s : State) : Prop where
   r7 : s.loading = false → s.value ≠ none
   m1 : s.manualLive = true → s.value = s.lastManual
   aw : ∀ a ∈ s.aws, AwOK s.loading a
+  /-- a clean source memo caches the current source values -/
+  s1 : s.viaMemo = true → s.smDirty = false → s.smVal = s.src
+  /-- no lost wake-up: a dirty source memo means the derived's channel flag is set -/
+  s2 : s.smDirty = true → s.chan = true
 
 /-- the derived's task at rest (between events) -/
 structure DRest (s : State) : Prop where
@@ -91,18 +95,18 @@ structure DRest (s : State) : Prop where
   r6 : s.pc = .fetching → (s.curStatus = .pending ∨ s.curStatus = .ready) ∧ s.fetchVersion = s.version ∧
         (s.curStatus = .ready → s.dWoken = true)
   fresh : s.stolen = false → s.dstate = .clean →
-        (s.pc = .waiting → s.manualLive = false → s.value = some (fetchFn s.src)) ∧
-        (s.pc ≠ .waiting → s.curInputs = s.src)
+        (s.pc = .waiting → s.manualLive = false → s.value = some (fetchFn (inputsNow s))) ∧
+        (s.pc ≠ .waiting → s.curInputs = inputsNow s)
 
 /-- the derived's task at the top of its loop (`rx.next()`), in the middle of a poll -/
 structure DMid (s : State) : Prop where
   pcw : s.pc = .waiting
   f1 : s.firstRun = true → s.chan = true ∧
         (s.initialFut = true → s.dstate ≠ .dirty ∧ (s.curStatus = .pending ∨ s.curStatus = .ready) ∧
-          (s.stolen = false → s.dstate = .clean → s.curInputs = s.src)) ∧
+          (s.stolen = false → s.dstate = .clean → s.curInputs = inputsNow s)) ∧
         (s.initialFut = false → s.dstate = .dirty)
   f2 : s.firstRun = false → s.initialFut = false ∧ s.loading = false ∧
-        (s.stolen = false → s.dstate = .clean → s.manualLive = false → s.value = some (fetchFn s.src))
+        (s.stolen = false → s.dstate = .clean → s.manualLive = false → s.value = some (fetchFn (inputsNow s)))
 
 structure Inv (s : State) : Prop where
   dc : DCore s
@@ -117,52 +121,69 @@ structure Mid (s : State) : Prop where
   ew : EWake s
 
 macro "inv_cases" : tactic =>
-  `(tactic| (refine ⟨⟨?_, ?_, ?_, ?_, ?_⟩, ⟨?_, ?_, ?_, ?_, ?_⟩, ⟨?_, ?_, ?_, ?_, ?_, ?_, ?_⟩, ⟨?_, ?_, ?_⟩⟩))
+  `(tactic| (refine ⟨⟨?_, ?_, ?_, ?_, ?_, ?_, ?_⟩, ⟨?_, ?_, ?_, ?_, ?_⟩, ⟨?_, ?_, ?_, ?_, ?_, ?_, ?_⟩, ⟨?_, ?_, ?_⟩⟩))
 
 theorem Inv.init (c : Cfg) : Inv (init c) := by
   unfold Async.init
-  inv_cases <;> simp [lastSeen, hasEffect, hasMemo] <;> (cases c.eff <;> simp)
+  inv_cases <;> simp [lastSeen, hasEffect, hasMemo, inputsNow] <;> (cases c.eff <;> simp)
 
-theorem Inv.dMarkDirtySrc {s : State} (h : Inv s) (x : List Val) :
+theorem Inv.dMarkDirtySrc {s : State} (h : Inv s) (x : List Val) (hv : s.viaMemo = false ∨ x = s.src) :
     Inv (Async.dMarkDirty { s with src := x }) := by
-  obtain ⟨⟨r1, r2, r7, m1, aw⟩, ⟨r3, r4, r5, r6, fresh⟩, ⟨e1, e2, e3, e5, e6, e7, e8⟩, ⟨w1, w2, w3⟩⟩ := h
+  obtain ⟨⟨r1, r2, r7, m1, aw, s1, s2⟩, ⟨r3, r4, r5, r6, fresh⟩, ⟨e1, e2, e3, e5, e6, e7, e8⟩, ⟨w1, w2, w3⟩⟩ := h
   unfold Async.dMarkDirty dNotify
-  inv_cases <;> (simp only [lastSeen] at *; split <;> try split) <;> simp_all
+  inv_cases <;> (simp only [lastSeen, inputsNow] at *; split <;> try split) <;>
+    (rcases hv with hv | hv) <;> simp_all
 
-theorem Inv.dMarkDirty {s : State} (h : Inv s) : Inv (Async.dMarkDirty s) := h.dMarkDirtySrc s.src
+/-- a source write when the fetcher reads through the source memo: the memo is marked `Dirty`, the
+derived is only asked to check -/
+theorem Inv.smMarkDirtySrc {s : State} (h : Inv s) (x : List Val) (hv : s.viaMemo = true) :
+    Inv (smMarkDirty { s with src := x }) := by
+  obtain ⟨⟨r1, r2, r7, m1, aw, s1, s2⟩, ⟨r3, r4, r5, r6, fresh⟩, ⟨e1, e2, e3, e5, e6, e7, e8⟩, ⟨w1, w2, w3⟩⟩ := h
+  unfold smMarkDirty dMarkCheck dNotify
+  inv_cases <;> (simp only [lastSeen, inputsNow] at *; split <;> try split) <;> simp_all
+
+theorem Inv.dMarkDirty {s : State} (h : Inv s) : Inv (Async.dMarkDirty s) := h.dMarkDirtySrc s.src (.inr rfl)
 
 theorem Inv.mMarkDirty {s : State} (h : Inv s) : Inv (mMarkDirty s) := by
-  obtain ⟨⟨r1, r2, r7, m1, aw⟩, ⟨r3, r4, r5, r6, fresh⟩, ⟨e1, e2, e3, e5, e6, e7, e8⟩, ⟨w1, w2, w3⟩⟩ := h
+  obtain ⟨⟨r1, r2, r7, m1, aw, s1, s2⟩, ⟨r3, r4, r5, r6, fresh⟩, ⟨e1, e2, e3, e5, e6, e7, e8⟩, ⟨w1, w2, w3⟩⟩ := h
   unfold Async.mMarkDirty eMarkCheck eNotify
-  inv_cases <;> (simp only [lastSeen] at *; (try split) <;> try split) <;> simp_all <;> grind
+  inv_cases <;> (simp only [lastSeen, inputsNow] at *; (try split) <;> try split) <;> simp_all <;> grind
 
 theorem Inv.setSrc {s : State} (h : Inv s) (i : Nat) (v : Val) : Inv (setSrc s i v) := by
   unfold Async.setSrc
   split
-  · have h1 := h.dMarkDirtySrc (setAt s.src i v)
-    simp only
-    split
-    · exact h1.mMarkDirty
-    · exact h1
+  · by_cases hv : s.viaMemo = true
+    · have h1 := h.smMarkDirtySrc (setAt s.src i v) hv
+      dsimp only
+      rw [if_pos hv]
+      split
+      · exact h1.mMarkDirty
+      · exact h1
+    · have h1 := h.dMarkDirtySrc (setAt s.src i v) (.inl (by simpa using hv))
+      dsimp only
+      rw [if_neg hv]
+      split
+      · exact h1.mMarkDirty
+      · exact h1
   · exact h
 
 theorem Inv.complete {s : State} (h : Inv s) (f : Nat) : Inv (complete s f) := by
-  obtain ⟨⟨r1, r2, r7, m1, aw⟩, ⟨r3, r4, r5, r6, fresh⟩, ⟨e1, e2, e3, e5, e6, e7, e8⟩, ⟨w1, w2, w3⟩⟩ := h
+  obtain ⟨⟨r1, r2, r7, m1, aw, s1, s2⟩, ⟨r3, r4, r5, r6, fresh⟩, ⟨e1, e2, e3, e5, e6, e7, e8⟩, ⟨w1, w2, w3⟩⟩ := h
   unfold Async.complete
-  inv_cases <;> (simp only [lastSeen] at *; split) <;> simp_all <;> grind
+  inv_cases <;> (simp only [lastSeen, inputsNow] at *; split) <;> simp_all <;> grind
 
 theorem Inv.attach {s : State} (h : Inv s) : Inv { s with aws := s.aws ++ [{}] } := by
-  obtain ⟨⟨r1, r2, r7, m1, aw⟩, ⟨r3, r4, r5, r6, fresh⟩, ⟨e1, e2, e3, e5, e6, e7, e8⟩, ⟨w1, w2, w3⟩⟩ := h
-  inv_cases <;> simp_all [lastSeen]
+  obtain ⟨⟨r1, r2, r7, m1, aw, s1, s2⟩, ⟨r3, r4, r5, r6, fresh⟩, ⟨e1, e2, e3, e5, e6, e7, e8⟩, ⟨w1, w2, w3⟩⟩ := h
+  inv_cases <;> simp_all [lastSeen, inputsNow]
   intro a ha
   rcases ha with ha | ha
   · exact aw a ha
   · subst ha; simp [AwOK]
 
 theorem Inv.pollA {s : State} (h : Inv s) (i : Nat) : Inv (pollA s i) := by
-  obtain ⟨⟨r1, r2, r7, m1, aw⟩, ⟨r3, r4, r5, r6, fresh⟩, ⟨e1, e2, e3, e5, e6, e7, e8⟩, ⟨w1, w2, w3⟩⟩ := h
+  obtain ⟨⟨r1, r2, r7, m1, aw, s1, s2⟩, ⟨r3, r4, r5, r6, fresh⟩, ⟨e1, e2, e3, e5, e6, e7, e8⟩, ⟨w1, w2, w3⟩⟩ := h
   unfold Async.pollA
-  inv_cases <;> simp_all [lastSeen]
+  inv_cases <;> simp_all [lastSeen, inputsNow]
   exact awAll_poll aw r7
 
 /-! ## `notify_subs` -/
@@ -187,6 +208,9 @@ macro "ns_frame" : tactic =>
 @[simp] theorem notifySubs_value (s : State) : (notifySubs s).value = s.value := by ns_frame
 @[simp] theorem notifySubs_manualLive (s : State) : (notifySubs s).manualLive = s.manualLive := by ns_frame
 @[simp] theorem notifySubs_lastManual (s : State) : (notifySubs s).lastManual = s.lastManual := by ns_frame
+@[simp] theorem notifySubs_viaMemo (s : State) : (notifySubs s).viaMemo = s.viaMemo := by ns_frame
+@[simp] theorem notifySubs_smDirty (s : State) : (notifySubs s).smDirty = s.smDirty := by ns_frame
+@[simp] theorem notifySubs_smVal (s : State) : (notifySubs s).smVal = s.smVal := by ns_frame
 @[simp] theorem notifySubs_src (s : State) : (notifySubs s).src = s.src := by ns_frame
 @[simp] theorem notifySubs_eff (s : State) : (notifySubs s).eff = s.eff := by ns_frame
 @[simp] theorem notifySubs_loading (s : State) : (notifySubs s).loading = false := by ns_frame
@@ -208,7 +232,7 @@ theorem notifySubs_effect {s : State}
     (e2 : hasEffect s.eff = true → s.eFirst = false → s.eSubD = true)
     (e3 : s.eDirty = true → s.eChan = true)
     (e5 : hasMemo s.eff = false → s.eChan = true → s.eDirty = true)
-    (e6 : hasMemo s.eff = false → s.stolen = false)
+    (e6 : s.stolen = false)
     (e7 : s.eSubM = true → hasMemo s.eff = true ∧ hasEffect s.eff = true)
     (e8 : s.eSubD = true → hasEffect s.eff = true)
     (ew : EWake s) : ECore (notifySubs s) ∧ EWake (notifySubs s) := by
@@ -217,34 +241,35 @@ theorem notifySubs_effect {s : State}
 
 theorem notifySubs_dcore {s : State} (r1 : s.dstate ≠ .notifying) (r2 : s.dstate = .dirty → s.chan = true)
     (hv : s.value ≠ none) (m1 : s.manualLive = true → s.value = s.lastManual)
-    (aw : ∀ a ∈ s.aws, AwOK s.loading a) : DCore (notifySubs s) := by
-  refine ⟨?_, ?_, ?_, ?_, ?_⟩ <;> simp_all
+    (aw : ∀ a ∈ s.aws, AwOK s.loading a) (s1 : s.viaMemo = true → s.smDirty = false → s.smVal = s.src)
+    (s2 : s.smDirty = true → s.chan = true) : DCore (notifySubs s) := by
+  refine ⟨?_, ?_, ?_, ?_, ?_, ?_, ?_⟩ <;> simp_all
   intro a ha
   exact (aw a ha).wake
 
 theorem Inv.manualSet {s : State} (h : Inv s) (v : Val) : Inv (manualSet s v) := by
-  obtain ⟨⟨r1, r2, r7, m1, aw⟩, ⟨r3, r4, r5, r6, fresh⟩, ⟨e1, e2, e3, e5, e6, e7, e8⟩, ew⟩ := h
+  obtain ⟨⟨r1, r2, r7, m1, aw, s1, s2⟩, ⟨r3, r4, r5, r6, fresh⟩, ⟨e1, e2, e3, e5, e6, e7, e8⟩, ew⟩ := h
   unfold Async.manualSet
   have hc := notifySubs_dcore (s := { s with value := some v, manualLive := true, lastManual := some v })
-    r1 r2 (by simp) (by simp) aw
+    r1 r2 (by simp) (by simp) aw s1 s2
   have he := notifySubs_effect (s := { s with value := some v, manualLive := true, lastManual := some v })
     e1 (fun a b => (e2 a b).1) e3 e5 e6 e7 e8 ⟨ew.w1, ew.w2, ew.w3⟩
-  refine ⟨hc, ⟨?_, ?_, ?_, ?_, ?_⟩, he.1, he.2⟩ <;> simp_all
+  refine ⟨hc, ⟨?_, ?_, ?_, ?_, ?_⟩, he.1, he.2⟩ <;> simp_all [inputsNow]
 
 theorem applyResult_mid {s : State} (dc : DCore s) (ec : ECore s) (ew : EWake s)
     (hv : s.version = s.fetchVersion) (hf : s.firstRun = false) (hi : s.initialFut = false)
-    (hfr : s.stolen = false → s.dstate = .clean → s.curInputs = s.src) : Mid (applyResult s) := by
-  obtain ⟨r1, r2, r7, m1, aw⟩ := dc
+    (hfr : s.stolen = false → s.dstate = .clean → s.curInputs = inputsNow s) : Mid (applyResult s) := by
+  obtain ⟨r1, r2, r7, m1, aw, s1, s2⟩ := dc
   obtain ⟨e1, e2, e3, e5, e6, e7, e8⟩ := ec
   dsimp only [applyResult]
   rw [if_pos hv]
   have hc := notifySubs_dcore
     (s := { s with curStatus := .done, pc := .waiting, value := some (fetchFn s.curInputs), manualLive := false })
-    r1 r2 (by simp) (by simp) aw
+    r1 r2 (by simp) (by simp) aw s1 s2
   have he := notifySubs_effect
     (s := { s with curStatus := .done, pc := .waiting, value := some (fetchFn s.curInputs), manualLive := false })
     e1 (fun a b => (e2 a b).1) e3 e5 e6 e7 e8 ⟨ew.w1, ew.w2, ew.w3⟩
-  refine ⟨hc, ⟨?_, ?_, ?_⟩, he.1, he.2⟩ <;> simp_all
+  refine ⟨hc, ⟨?_, ?_, ?_⟩, he.1, he.2⟩ <;> simp_all [inputsNow]
 
 @[simp] theorem applyResult_chan (s : State) : (applyResult s).chan = s.chan := by
   simp only [applyResult]; split <;> simp
@@ -255,39 +280,62 @@ theorem applyResult_mid {s : State} (dc : DCore s) (ec : ECore s) (ew : EWake s)
 
 /-! ## the derived's task -/
 
+/-- the task's check at the top of its loop, after consuming the channel flag -/
+def chk (s : State) : State × Bool := dNeedsRerun { s with reg := true, chan := false }
+
 /-- the state in which `fut.await` is reached -/
-def fetchState (s : State) : State := startFetch (dUpdateOwn { s with reg := true, chan := false })
+def fetchState (s : State) : State := startFetch (if (chk s).2 then dropInitial (chk s).1 else (chk s).1)
 
 theorem dIter_def (s : State) : dIter s =
     if s.chan = false then ({ s with reg := true }, false)
-    else if s.dstate = .dirty ∨ s.firstRun = true then
+    else if (chk s).2 = true ∨ (chk s).1.firstRun = true then
       (if (fetchState s).curStatus = .ready then (applyResult (fetchState s), true) else (fetchState s, false))
-    else ({ s with reg := true, chan := false }, true) := by
-  simp only [dIter, fetchState, dUpdateOwn]
+    else ((chk s).1, true) := by
+  simp only [dIter, fetchState, chk, Bool.or_eq_true]
   split
   · rfl
-  · by_cases hd : s.dstate = .dirty <;> simp [hd]
+  · rfl
 
+@[simp] theorem smUpdate_chan (s : State) : (smUpdate s).1.chan = s.chan := by
+  simp only [smUpdate]; split <;> rfl
+@[simp] theorem dNeedsRerun_chan (s : State) : (dNeedsRerun s).1.chan = s.chan := by
+  simp only [dNeedsRerun]; split <;> simp
+@[simp] theorem dropInitial_chan (s : State) : (dropInitial s).chan = s.chan := by
+  simp only [dropInitial]; split <;> rfl
+@[simp] theorem startFetch_chan (s : State) : (startFetch s).chan = s.chan := by
+  simp only [startFetch]; split <;> simp
+@[simp] theorem startFetch_firstRun (s : State) : (startFetch s).firstRun = false := by
+  simp only [startFetch]
+@[simp] theorem startFetch_initialFut (s : State) : (startFetch s).initialFut = false := by
+  simp only [startFetch]; split <;> simp_all [smUpdate] <;> split <;> simp_all
+@[simp] theorem startFetch_version (s : State) : (startFetch s).version = (startFetch s).fetchVersion := by
+  simp only [startFetch]
+@[simp] theorem startFetch_pc (s : State) : (startFetch s).pc = .fetching := by
+  simp only [startFetch]
+
+theorem chk_chan (s : State) : (chk s).1.chan = false := by simp [chk]
 theorem fetchState_chan (s : State) : (fetchState s).chan = false := by
-  simp only [fetchState, startFetch, dUpdateOwn]; (repeat' split) <;> rfl
-theorem fetchState_firstRun (s : State) : (fetchState s).firstRun = false := by
-  simp only [fetchState, startFetch, dUpdateOwn]
-theorem fetchState_initialFut (s : State) : (fetchState s).initialFut = false := by
-  simp only [fetchState, startFetch, dUpdateOwn]; (repeat' split) <;> simp_all
+  simp only [fetchState, startFetch_chan]; split <;> simp [chk_chan]
+theorem fetchState_firstRun (s : State) : (fetchState s).firstRun = false := by simp [fetchState]
+theorem fetchState_initialFut (s : State) : (fetchState s).initialFut = false := by simp [fetchState]
 theorem fetchState_version (s : State) : (fetchState s).version = (fetchState s).fetchVersion := by
-  simp only [fetchState, startFetch, dUpdateOwn]
-theorem fetchState_pc (s : State) : (fetchState s).pc = .fetching := by
-  simp only [fetchState, startFetch, dUpdateOwn]
+  simp [fetchState]
+theorem fetchState_pc (s : State) : (fetchState s).pc = .fetching := by simp [fetchState]
 
 theorem dIter_cont_chan (s : State) (h : (dIter s).2 = true) : (dIter s).1.chan = false := by
   rw [dIter_def] at h ⊢
-  split at h
-  · simp at h
-  · split at h
+  by_cases hc : s.chan = false
+  · rw [if_pos hc] at h; simp at h
+  · rw [if_neg hc] at h ⊢
+    split at h
     · split at h
-      · simp [*, fetchState_chan]
+      · rename_i h1 h2
+        rw [if_pos h1, if_pos h2]
+        simp [fetchState_chan]
       · simp at h
-    · simp [*]
+    · rename_i h1
+      rw [if_neg h1]
+      exact chk_chan s
 
 theorem dLoop_eq (n : Nat) (s : State) :
     dLoop (n + 2) s = if (dIter s).2 then (dIter (dIter s).1).1 else (dIter s).1 := by
@@ -299,16 +347,61 @@ theorem dLoop_eq (n : Nat) (s : State) :
     simp [hc]
   · rfl
 
-theorem Mid.toFetch {s : State} (h : Mid s) (hn : s.dstate = .dirty ∨ s.firstRun = true) :
+
+/-- the two ways `fut.await` is reached: the initial future is reused (the check found no change), or a
+new future is created (which reads the sources now) -/
+theorem fetchState_cases (s : State) :
+    ((chk s).2 = false ∧ s.initialFut = true ∧ s.dstate ≠ .dirty ∧ (s.smDirty = true → s.smVal = s.src) ∧
+      fetchState s =
+      { s with
+        reg := true, chan := false,
+        smVal := (if s.smDirty then s.src else s.smVal), smDirty := false, initialFut := false,
+        firstRun := false, loading := true, version := s.version + 1, fetchVersion := s.version + 1,
+        pc := .fetching }) ∨
+    (fetchState s =
+      { s with
+        reg := true, chan := false,
+        dstate := (if s.dstate = .dirty then .clean else s.dstate),
+        smVal := (if s.smDirty then s.src else s.smVal), smDirty := false, initialFut := false,
+        curStatus := .pending, nf := s.nf + 1,
+        curInputs := (if s.viaMemo then (if s.smDirty then s.src else s.smVal) else s.src),
+        firstRun := false, loading := true, version := s.version + 1, fetchVersion := s.version + 1,
+        pc := .fetching }) := by
+  by_cases hd : s.dstate = .dirty <;> by_cases hs : s.smDirty = true <;>
+    by_cases hi : s.initialFut = true <;> by_cases hch : s.smVal = s.src <;>
+    simp [fetchState, chk, dNeedsRerun, smUpdate, dropInitial, startFetch, inputsNow, hd, hs, hi, hch]
+
+theorem chk_false (s : State) (h : (chk s).2 = false) :
+    s.dstate ≠ .dirty ∧ (s.smDirty = true → s.smVal = s.src) ∧
+    (chk s).1 =
+      { s with
+        reg := true, chan := false,
+        smVal := (if s.smDirty then s.src else s.smVal), smDirty := false } := by
+  revert h
+  by_cases hd : s.dstate = .dirty <;> by_cases hs : s.smDirty = true <;> by_cases hch : s.smVal = s.src <;>
+    simp [chk, dNeedsRerun, smUpdate, hd, hs, hch]
+
+theorem Mid.toFetch {s : State} (h : Mid s) (hn : (chk s).2 = true ∨ (chk s).1.firstRun = true) :
     DCore (fetchState s) ∧ ECore (fetchState s) ∧ EWake (fetchState s) ∧
     ((fetchState s).curStatus = .pending ∨ (fetchState s).curStatus = .ready) ∧
     ((fetchState s).stolen = false → (fetchState s).dstate = .clean →
-      (fetchState s).curInputs = (fetchState s).src) := by
-  obtain ⟨⟨r1, r2, r7, m1, aw⟩, ⟨pcw, f1, f2⟩, ⟨e1, e2, e3, e5, e6, e7, e8⟩, ⟨w1, w2, w3⟩⟩ := h
+      (fetchState s).curInputs = inputsNow (fetchState s)) := by
+  obtain ⟨⟨r1, r2, r7, m1, aw, s1, s2⟩, ⟨pcw, f1, f2⟩, ⟨e1, e2, e3, e5, e6, e7, e8⟩, ⟨w1, w2, w3⟩⟩ := h
   have aw' : ∀ a ∈ s.aws, AwOK true a := fun a ha => (aw a ha).loading
-  refine ⟨⟨?_, ?_, ?_, ?_, ?_⟩, ⟨?_, ?_, ?_, ?_, ?_, ?_, ?_⟩, ⟨?_, ?_, ?_⟩, ?_, ?_⟩ <;>
-    (simp only [fetchState, startFetch, dUpdateOwn, lastSeen] at *; (repeat' split)) <;> simp_all <;> grind
-
+  rcases fetchState_cases s with ⟨hc2, hi, hd, hsm, heq⟩ | heq
+  · -- the initial future is reused: the check found no change
+    have hfr : (chk s).1.firstRun = true := by
+      rcases hn with hn | hn
+      · simp [hc2] at hn
+      · exact hn
+    have hfr' : s.firstRun = true := by
+      rw [(chk_false s hc2).2.2] at hfr; exact hfr
+    rw [heq]
+    refine ⟨⟨?_, ?_, ?_, ?_, ?_, ?_, ?_⟩, ⟨?_, ?_, ?_, ?_, ?_, ?_, ?_⟩, ⟨?_, ?_, ?_⟩, ?_, ?_⟩ <;>
+      simp_all [lastSeen, inputsNow] <;> grind
+  · rw [heq]
+    refine ⟨⟨?_, ?_, ?_, ?_, ?_, ?_, ?_⟩, ⟨?_, ?_, ?_, ?_, ?_, ?_, ?_⟩, ⟨?_, ?_, ?_⟩, ?_, ?_⟩ <;>
+      simp_all [lastSeen, inputsNow] <;> grind
 
 theorem Mid.iter {s : State} (h : Mid s) :
     ((dIter s).2 = false → Inv (dIter s).1) ∧
@@ -319,10 +412,10 @@ theorem Mid.iter {s : State} (h : Mid s) :
     rw [if_pos hc]
     refine ⟨fun _ => ?_, fun hh => by simp at hh⟩
     show Inv { s with reg := true }
-    obtain ⟨⟨r1, r2, r7, m1, aw⟩, ⟨pcw, f1, f2⟩, ⟨e1, e2, e3, e5, e6, e7, e8⟩, ⟨w1, w2, w3⟩⟩ := h
-    inv_cases <;> simp_all [lastSeen]
+    obtain ⟨⟨r1, r2, r7, m1, aw, s1, s2⟩, ⟨pcw, f1, f2⟩, ⟨e1, e2, e3, e5, e6, e7, e8⟩, ⟨w1, w2, w3⟩⟩ := h
+    inv_cases <;> simp_all [lastSeen, inputsNow]
   · rw [if_neg hc]
-    by_cases hn : s.dstate = .dirty ∨ s.firstRun = true
+    by_cases hn : (chk s).2 = true ∨ (chk s).1.firstRun = true
     · rw [if_pos hn]
       obtain ⟨dc, ec, ew, hst, hfr⟩ := h.toFetch hn
       by_cases hr : (fetchState s).curStatus = .ready
@@ -337,10 +430,20 @@ theorem Mid.iter {s : State} (h : Mid s) :
           simp_all [fetchState_pc, fetchState_firstRun, fetchState_initialFut, fetchState_version]
     · rw [if_neg hn]
       refine ⟨fun hh => by simp at hh, fun _ => ?_⟩
-      show Mid { s with reg := true, chan := false } ∧ _
-      obtain ⟨⟨r1, r2, r7, m1, aw⟩, ⟨pcw, f1, f2⟩, ⟨e1, e2, e3, e5, e6, e7, e8⟩, ⟨w1, w2, w3⟩⟩ := h
-      refine ⟨⟨⟨?_, ?_, ?_, ?_, ?_⟩, ⟨?_, ?_, ?_⟩, ⟨?_, ?_, ?_, ?_, ?_, ?_, ?_⟩, ⟨?_, ?_, ?_⟩⟩, ?_, ?_⟩ <;>
-        simp_all [lastSeen]
+      show Mid (chk s).1 ∧ (chk s).1.chan = false ∧ (chk s).1.firstRun = false
+      have hc2 : (chk s).2 = false := by
+        cases h2 : (chk s).2
+        · rfl
+        · exact absurd (.inl h2) hn
+      have hf2 : (chk s).1.firstRun = false := by
+        cases h2 : (chk s).1.firstRun
+        · rfl
+        · exact absurd (.inr h2) hn
+      obtain ⟨hd, hsm, heq⟩ := chk_false s hc2
+      rw [heq] at hf2 ⊢
+      obtain ⟨⟨r1, r2, r7, m1, aw, s1, s2⟩, ⟨pcw, f1, f2⟩, ⟨e1, e2, e3, e5, e6, e7, e8⟩, ⟨w1, w2, w3⟩⟩ := h
+      refine ⟨⟨⟨?_, ?_, ?_, ?_, ?_, ?_, ?_⟩, ⟨?_, ?_, ?_⟩, ⟨?_, ?_, ?_, ?_, ?_, ?_, ?_⟩, ⟨?_, ?_, ?_⟩⟩, ?_, ?_⟩ <;>
+        simp_all [lastSeen, inputsNow] <;> grind
 
 /-- entering the loop and running it to the next suspension point re-establishes the invariant -/
 theorem Mid.loop {s : State} (h : Mid s) : Inv (dLoop 3 s) := by
@@ -357,33 +460,35 @@ theorem Mid.loop {s : State} (h : Mid s) : Inv (dLoop 3 s) := by
 
 theorem Inv.pollD {s : State} (h : Inv s) : Inv (pollD s) := by
   unfold Async.pollD
-  obtain ⟨⟨r1, r2, r7, m1, aw⟩, ⟨r3, r4, r5, r6, fresh⟩, ⟨e1, e2, e3, e5, e6, e7, e8⟩, ⟨w1, w2, w3⟩⟩ := h
+  obtain ⟨⟨r1, r2, r7, m1, aw, s1, s2⟩, ⟨r3, r4, r5, r6, fresh⟩, ⟨e1, e2, e3, e5, e6, e7, e8⟩, ⟨w1, w2, w3⟩⟩ := h
   dsimp only
   split
   · -- first poll
     rename_i hpc
     apply Mid.loop
-    refine ⟨⟨?_, ?_, ?_, ?_, ?_⟩, ⟨?_, ?_, ?_⟩, ⟨?_, ?_, ?_, ?_, ?_, ?_, ?_⟩, ⟨?_, ?_, ?_⟩⟩ <;>
-      (simp only [lastSeen] at *; (try split)) <;> simp_all
+    refine ⟨⟨?_, ?_, ?_, ?_, ?_, ?_, ?_⟩, ⟨?_, ?_, ?_⟩, ⟨?_, ?_, ?_, ?_, ?_, ?_, ?_⟩, ⟨?_, ?_, ?_⟩⟩ <;>
+      (simp only [lastSeen, inputsNow] at *; (try split)) <;> simp_all
   · rename_i hpc
     apply Mid.loop
-    refine ⟨⟨?_, ?_, ?_, ?_, ?_⟩, ⟨?_, ?_, ?_⟩, ⟨?_, ?_, ?_, ?_, ?_, ?_, ?_⟩, ⟨?_, ?_, ?_⟩⟩ <;>
-      simp_all [lastSeen]
+    refine ⟨⟨?_, ?_, ?_, ?_, ?_, ?_, ?_⟩, ⟨?_, ?_, ?_⟩, ⟨?_, ?_, ?_, ?_, ?_, ?_, ?_⟩, ⟨?_, ?_, ?_⟩⟩ <;>
+      simp_all [lastSeen, inputsNow]
   · rename_i hpc
     split
     · apply Mid.loop
       apply applyResult_mid
-      · exact ⟨r1, r2, r7, m1, aw⟩
+      · exact ⟨r1, r2, r7, m1, aw, s1, s2⟩
       · exact ⟨e1, e2, e3, e5, e6, e7, e8⟩
       · exact ⟨w1, w2, w3⟩
-      all_goals simp_all
-    · inv_cases <;> simp_all [lastSeen]
+      all_goals simp_all [inputsNow]
+    · inv_cases <;> simp_all [lastSeen, inputsNow]
+
+
 
 /-! ## the effect's task -/
 
 /-- what the effect's check phase (`update_if_necessary` over its sources, untracked) can change: the
-memo, the effect's own dirty flag / channel (a memo that changed marks it), and — when it reaches the
-derived while that is `Dirty` — the derived's state, which it resets to `Clean` -/
+memo and the effect's own dirty flag / channel (a memo that changed marks it); the derived answers
+`false` and is not touched -/
 structure Frame (s s' : State) : Prop where
   eff : s'.eff = s.eff
   src : s'.src = s.src
@@ -407,23 +512,22 @@ structure Frame (s s' : State) : Prop where
   manualLive : s'.manualLive = s.manualLive
   lastManual : s'.lastManual = s.lastManual
   notifs : s'.notifs = s.notifs
-  ds : (s'.dstate = s.dstate ∧ s'.stolen = s.stolen) ∨
-       (s.dstate = .dirty ∧ s'.dstate = .clean ∧ s'.stolen = true)
+  viaMemo : s'.viaMemo = s.viaMemo
+  smDirty : s'.smDirty = s.smDirty
+  smVal : s'.smVal = s.smVal
+  dstate : s'.dstate = s.dstate
+  stolen : s'.stolen = s.stolen
 
 theorem Frame.refl (s : State) : Frame s s := by
   constructor <;> simp
 
 theorem Frame.trans {a b c : State} (h1 : Frame a b) (h2 : Frame b c) : Frame a c := by
-  obtain ⟨_, _, _, _, _, _, _, _, _, _, _, _, _, _, _, _, _, _, _, _, _, _, d1⟩ := h1
-  obtain ⟨_, _, _, _, _, _, _, _, _, _, _, _, _, _, _, _, _, _, _, _, _, _, d2⟩ := h2
+  obtain ⟨_, _, _, _, _, _, _, _, _, _, _, _, _, _, _, _, _, _, _, _, _, _, _, _, _, _, _⟩ := h1
+  obtain ⟨_, _, _, _, _, _, _, _, _, _, _, _, _, _, _, _, _, _, _, _, _, _, _, _, _, _, _⟩ := h2
   constructor <;> simp_all
-  rcases d1 with d1 | d1 <;> rcases d2 with d2 | d2 <;> simp_all
 
 theorem Frame.dAsSource (s : State) : Frame s (dAsSource s).1 := by
-  unfold Async.dAsSource
-  split
-  · constructor <;> simp_all
-  · exact Frame.refl s
+  exact Frame.refl s
 
 theorem Frame.memoUpdate (b : Bool) (s : State) : Frame s (memoUpdate b s).1 := by
   simp only [Async.memoUpdate, eMarkDirty, eNotify]
@@ -459,15 +563,15 @@ theorem runEffect_spec (s : State) : ∃ (ms : MState) (mv : Option Val) (mr : B
 
 /-- a run of the effect's function re-establishes the effect's part of the invariant -/
 theorem runEffect_inv {s : State} (dc : DCore s) (dr : DRest s)
-    (e6 : hasMemo s.eff = false → s.stolen = false) (hd : s.eDirty = false)
+    (e6 : s.stolen = false) (hd : s.eDirty = false)
     (hc : hasMemo s.eff = false → s.eChan = false) :
     DCore (runEffect s) ∧ DRest (runEffect s) ∧ ECore (runEffect s) := by
-  obtain ⟨r1, r2, r7, m1, aw⟩ := dc
+  obtain ⟨r1, r2, r7, m1, aw, s1, s2⟩ := dc
   obtain ⟨r3, r4, r5, r6, fresh⟩ := dr
   obtain ⟨ms, mv, mr, x, h⟩ := runEffect_spec s
   rw [h]
-  refine ⟨⟨?_, ?_, ?_, ?_, ?_⟩, ⟨?_, ?_, ?_, ?_, ?_⟩, ⟨?_, ?_, ?_, ?_, ?_, ?_, ?_⟩⟩ <;>
-    simp_all [lastSeen]
+  refine ⟨⟨?_, ?_, ?_, ?_, ?_, ?_, ?_⟩, ⟨?_, ?_, ?_, ?_, ?_⟩, ⟨?_, ?_, ?_, ?_, ?_, ?_, ?_⟩⟩ <;>
+    simp_all [lastSeen, inputsNow]
   exact hasEffect_of_hasMemo _
 
 /-- normal form of one iteration of the effect's loop -/
@@ -486,23 +590,23 @@ theorem eIter_def (s : State) : eIter s =
 theorem effUpdate_inv {s : State} (dc : DCore s) (dr : DRest s)
     (e2 : hasEffect s.eff = true → s.eFirst = false →
       s.eSubD = true ∧ (s.eDirty = true ∨ lastSeen s = some s.value))
-    (e6 : hasMemo s.eff = false → s.stolen = false)
+    (e6 : s.stolen = false)
     (hm : hasMemo s.eff = false → s.eDirty = true) :
     DCore (effUpdate s).1 ∧ DRest (effUpdate s).1 ∧ (effUpdate s).1.eDirty = false ∧
     (hasMemo s.eff = false → (effUpdate s).1.eChan = s.eChan) ∧
     (effUpdate s).1.eFirst = s.eFirst ∧ (effUpdate s).1.eff = s.eff ∧
     (effUpdate s).1.eSubD = s.eSubD ∧ (effUpdate s).1.eSubM = s.eSubM ∧
     (s.eDirty = true → (effUpdate s).2 = true) ∧
-    (hasMemo s.eff = false → (effUpdate s).1.stolen = false) ∧
+    (effUpdate s).1.stolen = false ∧
     (s.eDirty = false → hasEffect s.eff = true → s.eFirst = false →
       lastSeen (effUpdate s).1 = some (effUpdate s).1.value) := by
-  obtain ⟨r1, r2, r7, m1, aw⟩ := dc
+  obtain ⟨r1, r2, r7, m1, aw, s1, s2⟩ := dc
   obtain ⟨r3, r4, r5, r6, fresh⟩ := dr
   unfold effUpdate
   by_cases hd : s.eDirty = true
   · rw [if_pos hd]
-    refine ⟨⟨?_, ?_, ?_, ?_, ?_⟩, ⟨?_, ?_, ?_, ?_, ?_⟩, ?_, ?_, ?_, ?_, ?_, ?_, ?_, ?_, ?_⟩ <;>
-      simp_all [lastSeen]
+    refine ⟨⟨?_, ?_, ?_, ?_, ?_, ?_, ?_⟩, ⟨?_, ?_, ?_, ?_, ?_⟩, ?_, ?_, ?_, ?_, ?_, ?_, ?_, ?_, ?_⟩ <;>
+      simp_all [lastSeen, inputsNow]
   · rw [if_neg hd]
     have hmm : hasMemo s.eff = true := by
       cases h : hasMemo s.eff
@@ -512,9 +616,9 @@ theorem effUpdate_inv {s : State} (dc : DCore s) (dr : DRest s)
     have hfr := Frame.effAny L s
     generalize effAny L s = r at *
     obtain ⟨f1, f2, f3, f4, f5, f6, f7, f8, f9, f10, f11, f12, f13, f14, f19, f20, f21,
-      f22, f23, f24, f25, f26, fds⟩ := hfr
-    refine ⟨⟨?_, ?_, ?_, ?_, ?_⟩, ⟨?_, ?_, ?_, ?_, ?_⟩, ?_, ?_, ?_, ?_, ?_, ?_, ?_, ?_, ?_⟩ <;>
-      (rcases fds with fds | fds) <;> simp_all [lastSeen]
+      f22, f23, f24, f25, f26, g1, g2, g3, g4, g5⟩ := hfr
+    refine ⟨⟨?_, ?_, ?_, ?_, ?_, ?_, ?_⟩, ⟨?_, ?_, ?_, ?_, ?_⟩, ?_, ?_, ?_, ?_, ?_, ?_, ?_, ?_, ?_⟩ <;>
+      simp_all [lastSeen, inputsNow]
 
 /-- one iteration of the effect's loop, from a state satisfying everything but the effect's wake-up
 clauses: either it suspends and the full invariant holds, or it goes round again in such a state -/
@@ -526,21 +630,21 @@ theorem eIter_inv {s : State} (dc : DCore s) (dr : DRest s) (ec : ECore s) :
   · rw [if_pos hc]
     refine ⟨fun _ => ?_, fun hh => by simp at hh⟩
     show Inv { s with eReg := true }
-    obtain ⟨r1, r2, r7, m1, aw⟩ := dc
+    obtain ⟨r1, r2, r7, m1, aw, s1, s2⟩ := dc
     obtain ⟨r3, r4, r5, r6, fresh⟩ := dr
     obtain ⟨e1, e2, e3, e5, e6, e7, e8⟩ := ec
-    inv_cases <;> simp_all [lastSeen]
+    inv_cases <;> simp_all [lastSeen, inputsNow]
   · rw [if_neg hc]
     have hc' : s.eChan = true := by simpa using hc
     obtain ⟨e1, e2, e3, e5, e6, e7, e8⟩ := ec
     have hu := effUpdate_inv (s := { s with eReg := true, eChan := false })
-      ⟨dc.r1, dc.r2, dc.r7, dc.m1, dc.aw⟩ ⟨dr.r3, dr.r4, dr.r5, dr.r6, dr.fresh⟩ e2 e6 (fun h => e5 h hc')
+      ⟨dc.r1, dc.r2, dc.r7, dc.m1, dc.aw, dc.s1, dc.s2⟩ ⟨dr.r3, dr.r4, dr.r5, dr.r6, dr.fresh⟩ e2 e6 (fun h => e5 h hc')
     generalize effUpdate { s with eReg := true, eChan := false } = u at *
     obtain ⟨udc, udr, ud, uc, uf, ue, usd, usm, udirty, ust, useen⟩ := hu
     by_cases hrun : u.2 = true ∨ u.1.eFirst = true
     · rw [if_pos hrun]
       refine ⟨fun hh => by simp at hh, fun _ => ?_⟩
-      exact runEffect_inv udc udr (by simpa [ue] using ust) ud (by simpa [ue] using uc)
+      exact runEffect_inv udc udr ust ud (by simpa [ue] using uc)
     · rw [if_neg hrun]
       refine ⟨fun hh => by simp at hh, fun _ => ?_⟩
       have h1 : u.2 = false := by
@@ -563,10 +667,10 @@ theorem eLoop_inv (n : Nat) {s : State} (dc : DCore s) (dr : DRest s) (ec : ECor
   induction n generalizing s with
   | zero =>
     show Inv { s with eWoken := true }
-    obtain ⟨r1, r2, r7, m1, aw⟩ := dc
+    obtain ⟨r1, r2, r7, m1, aw, s1, s2⟩ := dc
     obtain ⟨r3, r4, r5, r6, fresh⟩ := dr
     obtain ⟨e1, e2, e3, e5, e6, e7, e8⟩ := ec
-    inv_cases <;> simp_all [lastSeen]
+    inv_cases <;> simp_all [lastSeen, inputsNow]
   | succ n ih =>
     rw [eLoop]
     obtain ⟨h0, h1⟩ := eIter_inv dc dr ec
@@ -580,7 +684,7 @@ theorem eLoop_inv (n : Nat) {s : State} (dc : DCore s) (dr : DRest s) (ec : ECor
 theorem Inv.pollE {s : State} (h : Inv s) : Inv (pollE s) := by
   unfold Async.pollE
   obtain ⟨dc, dr, ec, ew⟩ := h
-  exact eLoop_inv 4 (s := { s with eWoken := false }) ⟨dc.r1, dc.r2, dc.r7, dc.m1, dc.aw⟩
+  exact eLoop_inv 4 (s := { s with eWoken := false }) ⟨dc.r1, dc.r2, dc.r7, dc.m1, dc.aw, dc.s1, dc.s2⟩
     ⟨dr.r3, dr.r4, dr.r5, dr.r6, dr.fresh⟩ ⟨ec.e1, ec.e2, ec.e3, ec.e5, ec.e6, ec.e7, ec.e8⟩
 
 /-! ## every event -/
